@@ -323,7 +323,7 @@ pub enum Out {
     Ctl(&'static str),
 }
 
-fn ctl_name(c: ControlInput) -> &'static str {
+pub fn ctl_name(c: ControlInput) -> &'static str {
     match c {
         ControlInput::Backspace => "Backspace",
         ControlInput::Down => "Down",
